@@ -336,6 +336,35 @@ def run(ctx):
             extra = 0 if kind == "bytesio" else \
                 compositions(L, True, rng, 1)[0]
             one(kind, data, [(f, l)], extra)
+        # an application with its own 416 page for some methods only: the
+        # answer to an unsatisfiable range is 416 for every method,
+        # whichever pages are registered
+        for mask in (None, 2, 1, 4, 511):
+            app2 = new_app()
+            if mask is not None:
+                app2.set_http_state(
+                    416, lambda req, *a, **k: ("own 416 page", "text/plain",
+                                               None, 416), mask)
+
+            def ranged(req):
+                res = Response(b"0123456789")
+                res.make_partial(parse_range(
+                    req.headers.get("Range", "")).get("bytes", []))
+                return res
+            app2.set_route("/r", ranged, 511)
+            for method in ("GET", "HEAD", "POST"):
+                for hdr, sat in (("bytes=10-", False), ("bytes=-0", False),
+                                 ("bytes=99-100", False), ("bytes=2-3", True)):
+                    ans = call(app2, environ(method=method, path="/r",
+                                             headers={"Range": hdr}))
+                    ctx.case(("own-416", mask, method, hdr), True, None)
+                    ctx.count("own-416-page")
+                    good = ans.code == 206 and ans.body == b"23" if sat \
+                        else ans.code == 416
+                    if ans.raised or not good:
+                        ctx.violation("unsatisfiable-range-answer", {
+                            "own_416_page_mask": mask, "method": method,
+                            "Range": hdr, "answer": ans.summary()})
         ctx.correspondence("range", IMPORTS, cases, lambda p: p)
     finally:
         import shutil
